@@ -81,7 +81,9 @@ class Builder(AtomCollection):
         Returns:
             (list(autode.atoms.Atom)): Atoms all with atom.coord = [0, 0, 0]
         """
-        return [Atom(atom.label) for atom in self.atoms]
+        return [
+            Atom(atom.label, atom_class=atom.atom_class) for atom in self.atoms
+        ]
 
     @property
     def built_atom_idxs(self):
